@@ -43,7 +43,7 @@ def main():
             U = O.circuit_unitary([g, ig], n)
             d = O.phase_dist(U, np.eye(2 ** n))
             res.count((gname, tuple(g.target_indices), tuple(g.params)), bucket=gname)
-            if d > 1e-7:
+            if d > 1e-7 + (4e-7 if g.name == "UnitaryMatrix" else 0.0):   # stored matrices are exact to about 1e-7 per entry
                 bad_kinds.add(g.name)
                 res.fail(f"sweep:inverse_gate:{g.name}", f"gate followed by inverse_gate(gate) is not the identity "
                          f"(dist {d:.3e})", {"gate": describe(QuantumCircuit(n, gates=[g])), "inverse": describe(QuantumCircuit(n, gates=[ig]))})
@@ -87,7 +87,8 @@ def main():
         ic = inverse_circuit(c)
         d = O.phase_dist(O.circuit_unitary(list(c.gates) + list(ic.gates), n), np.eye(2 ** n))
         res.count(("invcirc", tuple(map(str, describe(c)))), bucket="inverse_circuit")
-        if d > 1e-7 or ic.qubit_count != n or len(ic.gates) != len(c.gates):
+        n_um = 2 * sum(1 for g in c.gates if g.name == "UnitaryMatrix")
+        if d > 1e-7 + 2e-7 * n_um or ic.qubit_count != n or len(ic.gates) != len(c.gates):
             res.fail("sweep:inverse_circuit", f"circuit + inverse_circuit is not the identity (dist {d:.3e})",
                      {"circuit": describe(c), "inverse": describe(ic)})
     # ---- folding
@@ -124,7 +125,11 @@ def main():
         resid = int(((sf - (2 * m + 1)) * ng) / 2)
         d = O.phase_dist(O.circuit_unitary(sc.gates, n), O.circuit_unitary(c.gates, n))
         res.count(("fold", mname, sf, tuple(map(str, describe(c)))), bucket=f"folding_{mname}")
-        if d > 1e-7:
+        # a stored UnitaryMatrix is exact only to about 1e-7 per entry (imaginary parts below that are dropped by the gate object;
+        # the factory accepts matrices that are unitary to 1e-5), so U^dagger U of such a gate is the identity only to that
+        # precision: the tolerance grows with the number of matrix gates in the folded circuit
+        n_um = sum(1 for g in sc.gates if g.name == "UnitaryMatrix")
+        if d > 1e-7 + 2e-7 * n_um:
             res.fail(f"sweep:folding:{mname}:action", f"folded circuit acts differently (dist {d:.3e}, scale {sf})",
                      {"circuit": describe(c), "scale": sf, "method": mname})
         if len(sc.gates) != expect_len or len(idx) != resid or len(set(idx)) != len(idx) or \
